@@ -156,22 +156,31 @@ def build_env(source, name, cfg_opts, arg_opts, roots, scratch):
             if cfg_opts.get(opt) is not None:
                 lines.append("      %s: '{{ %s_dir }}'" % (key, opt))
                 params["%s_dir" % opt] = roots[cfg_opts[opt]]
-        if cfg_opts.get("cache") is not None:
+        inline = _n[0] % 2 == 1
+        if cfg_opts.get("cache") is not None and inline:
+            # options switched on by template parameters, each block on one line of its own inside the mapping
+            lines.append("      {% if cache_mb %}memory_cache_mb: {{ cache_mb }}{% endif %}")
+            params["cache_mb"] = cfg_opts["cache"]
+        elif cfg_opts.get("cache") is not None:
             lines.append("      memory_cache_mb: {{ cache_mb }}")
             params["cache_mb"] = cfg_opts["cache"]
-        if cfg_opts.get("ro") is not None:
+        if cfg_opts.get("ro") is not None and inline:
+            lines.append("      {% if read_only %}readonly: true{% else %}readonly: false{% endif %}")
+            params["read_only"] = bool(cfg_opts["ro"])
+        elif cfg_opts.get("ro") is not None:
             lines.append("      readonly: %s" % ("true" if cfg_opts["ro"] else "false"))
         if params and _n[0] % 3 == 0:
             # the template carries its values as defaults and is loaded without any parameter
             text = "\n".join(lines) + "\n"
             for k, v in params.items():
                 text = text.replace("{{ %s }}" % k, "{{ %s | default(%r) }}" % (k, v))
+                text = text.replace("{%% if %s %%}" % k, "{%% if %s | default(%r) %%}" % (k, v))
             open(path, "w").write(text)
             return Environment(name="e", base_dir=scratch, repos=[ConfigurationRepository.from_file(path)])
         open(path, "w").write("\n".join(lines) + "\n")
         if params:
             # the same template was rendered before, in this process, with other values for the same parameters
-            decoy = {k: (os.path.join(scratch, "decoy", k) if k.endswith("_dir") else 77) for k in params}
+            decoy = {k: (os.path.join(scratch, "decoy", k) if k.endswith("_dir") else (not v) if isinstance(v, bool) else 77) for k, v in params.items()}
             ConfigurationRepository.from_file(path, **decoy)
         repo = ConfigurationRepository.from_file(path, **params)
         return Environment(name="e", base_dir=scratch, repos=[repo])
@@ -369,6 +378,105 @@ def check_types(scratch):
     return fails
 
 
+def check_environment_arguments(scratch):
+    """`name=` / `base_dir=` given to Environment override the configuration object, for the built-in default cluster too; the dump
+    of such an environment rebuilds the same default cluster"""
+    from twosigma.memento import Environment
+    fails = []
+    d1, d2 = os.path.join(scratch, "from_cfg"), os.path.join(scratch, "from_arg")
+    os.environ["HOME"] = os.path.join(scratch, "homedir")
+    roots = {"cfg": os.path.join(d1, "cluster", "default"), "arg": os.path.join(d2, "cluster", "default")}
+    env_a = Environment({"name": "n_cfg", "base_dir": d1}, base_dir=d2)
+    env_b = Environment({"name": "n_cfg", "base_dir": d2})
+    oa, ob = behaviour(env_a, None, roots, 11), behaviour(env_b, None, dict(roots), 12)
+    if oa.get("data_at") != ["arg"] or oa.get("meta_at") != ["arg"]:
+        fails.append(dict(clause="argument-overrides-config", option="base_dir", observed=dict(data_at=oa.get("data_at"), meta_at=oa.get("meta_at")),
+                          expected="default cluster under the base_dir given as argument"))
+    if oa.get("dict") != ob.get("dict"):
+        fails.append(dict(clause="config-equals-argument", option="base_dir", via_config=ob.get("dict"), via_arguments=oa.get("dict")))
+    env_c = Environment(env_a.to_dict())
+    oc = behaviour(env_c, None, roots, 13)
+    if oc.get("dict") != oa.get("dict") or oc.get("data_at") not in ([], ["arg"]) or oc.get("meta_at") != ["arg"]:
+        fails.append(dict(clause="dump-roundtrip", option="base_dir", original=oa.get("dict"), rebuilt=oc.get("dict"),
+                          rebuilt_at=dict(data_at=oc.get("data_at"), meta_at=oc.get("meta_at"))))
+    # name: the default cluster of an environment without base_dir lives under ~/.memento/env/<name>
+    h = os.path.join(scratch, "homedir", ".memento", "env")
+    roots = {"cfg": os.path.join(h, "n_cfg", "cluster", "default"), "arg": os.path.join(h, "n_arg", "cluster", "default")}
+    env_a = Environment({"name": "n_cfg"}, name="n_arg")
+    env_b = Environment({"name": "n_arg"})
+    oa, ob = behaviour(env_a, None, roots, 14), behaviour(env_b, None, dict(roots), 15)
+    if oa.get("data_at") != ["arg"] or oa.get("meta_at") != ["arg"]:
+        fails.append(dict(clause="argument-overrides-config", option="name", observed=dict(data_at=oa.get("data_at"), meta_at=oa.get("meta_at")),
+                          expected="default cluster under the environment name given as argument"))
+    if oa.get("dict") != ob.get("dict"):
+        fails.append(dict(clause="config-equals-argument", option="name", via_config=ob.get("dict"), via_arguments=oa.get("dict")))
+    env_c = Environment(env_a.to_dict())
+    oc = behaviour(env_c, None, roots, 16)
+    if oc.get("dict") != oa.get("dict") or oc.get("meta_at") != ["arg"]:
+        fails.append(dict(clause="dump-roundtrip", option="name", original=oa.get("dict"), rebuilt=oc.get("dict")))
+    return fails
+
+
+def check_path_spellings(scratch):
+    """paths that are not absolute (relative to the working directory, starting with `~`, with `..` components): the same string
+    as configuration value and as constructor argument names the same store"""
+    from twosigma.memento import Environment, ConfigurationRepository, FunctionCluster
+    from twosigma.memento.storage_filesystem import FilesystemStorageBackend
+    fails = []
+    os.environ["HOME"] = os.path.join(scratch, "homedir")
+    cwd = os.getcwd()
+    work = os.path.join(scratch, "work")
+    os.makedirs(work)
+    os.makedirs(os.environ["HOME"], exist_ok=True)
+    os.chdir(work)
+    try:
+        for i, (pth, mpth) in enumerate([("~/md%d", None), ("~/md%d", "~/mm%d"), ("rel%d/data", None), ("rel%d/data", "rel%d/meta"),
+                                         ("./a%d/../b%d", None), ("$HOME/e%d", None)]):
+            pth = pth.replace("%d", str(i)); mpth = mpth.replace("%d", str(i)) if mpth else None
+            cfg = {"type": "filesystem", "path": pth}
+            kw = dict(path=pth)
+            if mpth:
+                cfg["metadata_path"] = mpth
+                kw["metadata_path"] = mpth
+            sigs = {}
+            for j, how in enumerate(("config", "arguments", "cluster-config", "config+arguments")):
+                name = "c18p_%d" % _n[0]
+                _n[0] += 1
+                if how == "config":
+                    cl = FunctionCluster(name=name, storage=FilesystemStorageBackend(config=dict(cfg)))
+                elif how == "arguments":
+                    cl = FunctionCluster(name=name, storage=FilesystemStorageBackend(**kw))
+                elif how == "cluster-config":
+                    cl = FunctionCluster(config={"name": name, "storage": dict(cfg)})
+                else:
+                    other = {"type": "filesystem", "path": "~/other"}
+                    if mpth:
+                        other["metadata_path"] = "~/otherm"
+                    cl = FunctionCluster(name=name, storage=FilesystemStorageBackend(config=other, **kw))
+                env = Environment(name="e", base_dir=scratch, repos=[ConfigurationRepository(name="r", clusters={name: cl})])
+                before = set(files_under(scratch))
+                obs = behaviour(env, name, {}, 100 + 10 * i + j)
+                new = sorted(set(files_under(scratch)) - before)
+                tops = sorted({os.sep.join(f.split(os.sep)[:3]) for f in new if (os.sep + "c" + os.sep) in f or (os.sep + "m" + os.sep) in f})
+                d = obs.get("dict", {})
+                sigs[how] = dict(dict_path=d.get("path"), dict_meta=d.get("metadata_path"), second_call_ran=obs.get("second_call_ran"))
+                sigs[how]["files"] = sorted({f.split(os.sep + "c" + os.sep)[0].split(os.sep + "m" + os.sep)[0] for f in new
+                                             if (os.sep + "c" + os.sep) in f or (os.sep + "m" + os.sep) in f})
+                # the next way of giving the same options finds what this one stored: forget it again
+                try:
+                    env.get_cluster(name).storage.forget_everything()
+                except Exception:
+                    pass
+            ref = sigs["arguments"]
+            for how, sg in sigs.items():
+                if sg != ref:
+                    fails.append(dict(clause="config-equals-argument", option="path", source=how, options=cfg, via_config=sg, via_arguments=ref))
+                    break
+    finally:
+        os.chdir(cwd)
+    return fails
+
+
 def storage_cases(rng, quick):
     """the full matrix of presence patterns for config-only cases x sources; argument-overrides sampled"""
     vals = dict(path=["A", "B"], meta=["B", "C", "A"], cache=[8, 0, 2, 0.5, 2.5], ro=[False, True])
@@ -459,6 +567,18 @@ def main(chk, replay=None):
             chk.violation({"what": "configuration: %s" % f["clause"], "class": {"clause": f["clause"]}, "observed": f, "case": None})
         chk.case(["types"], sample=dict(types="3 storage types x 3 runner settings"))
         chk.count("storage-runner-type-combinations", 9)
+        scratch = tempfile.mkdtemp(prefix="c18e_", dir=chk.tmpdir())
+        for f in check_environment_arguments(scratch):
+            chk.violation({"what": "configuration: %s (Environment option %s)" % (f["clause"], f["option"]), "class": {"clause": f["clause"], "option": f["option"]},
+                           "observed": f, "case": None})
+        chk.case(["environment-arguments"], nontrivial=True, sample=dict(options=["name", "base_dir"], cluster="default"))
+        chk.count("environment-argument-overrides", 2)
+        scratch = tempfile.mkdtemp(prefix="c18p_", dir=chk.tmpdir())
+        for f in check_path_spellings(scratch):
+            chk.violation({"what": "configuration: %s (path spelled %r: %s)" % (f["clause"], f["options"]["path"], f["source"]),
+                           "class": {"clause": f["clause"], "option": "path-spelling"}, "observed": f, "case": None})
+        chk.case(["path-spellings"], nontrivial=True, sample=dict(paths=["~/x", "rel/x", "./a/../b", "$HOME/x"]))
+        chk.count("path-spellings", 6)
     finally:
         if home is not None:
             os.environ["HOME"] = home
